@@ -157,13 +157,24 @@ def _msg_lines(filename):
     return r
 
 
-def in_message_context():
-    f = sys._getframe(2)
+FORMAT_FUNCS = {"print_dict_as_table", "get_formatted", "_report_data", "_report_model", "_report_fit_results", "report", "_get_preface_comment", "get_compact_representation",
+                "_get_fit_info", "_format_number"}
+
+
+def in_message_context(skip=2):
+    """number -> text conversions inside raise / warn / logging statements and inside the report / table formatting
+    functions return a placeholder: the text is not the subject there (formatting is decided separately, C17)"""
+    f = sys._getframe(skip)
     depth = 0
-    while f is not None and depth < 12:
+    first = True
+    while f is not None and depth < 16:
         fn = f.f_code.co_filename
         if fn.startswith(REPO_PREFIX):
-            return f.f_lineno in _msg_lines(fn)
+            if first and f.f_lineno in _msg_lines(fn):
+                return True
+            first = False
+            if f.f_code.co_name in FORMAT_FUNCS:
+                return True
         f = f.f_back
         depth += 1
     return False
@@ -408,6 +419,8 @@ class SymReal:
         raise Inconclusive("concretisation", "index() of %s" % _where())
 
     def __round__(s, nd=None):
+        if in_message_context():
+            return 0.0
         raise Inconclusive("concretisation", "round() of %s" % _where())
 
     # numpy-scalar look-alikes
@@ -420,6 +433,9 @@ class SymReal:
 
     def copy(s):
         return s
+
+    def __bool__(s):
+        return _CUR.branch(s.e != 0)  # truth value of a number: x != 0
 
     def __len__(s):
         raise TypeError("object of type 'float' has no len()")
@@ -723,7 +739,7 @@ class PathResult:
 
 
 class Engine:
-    def __init__(self, solver, branch_timeout_ms=8000, max_paths=400, max_depth=200):
+    def __init__(self, solver, branch_timeout_ms=8000, max_paths=400, max_depth=1500):
         self.solver = solver  # portfolio object with .check(constraints, timeout_ms, want_model)
         self.branch_timeout_ms = branch_timeout_ms
         self.max_paths = max_paths
